@@ -69,13 +69,10 @@ def generic_classes(ctx, names: List[str]):
 
 def enzymes_for_tier(ctx) -> List[str]:
     used = sorted({k.cutter.name for k in ctx.inventory if k.cutter is not None})
-    if ctx.thorough:
-        allz = [e[0] for e in enzymes_in_scope()]
-        if len(allz) < 20:
-            raise AnalysisError("enzyme quantifier shrank to %d (expected 58 with Biopython 1.88)" % len(allz))
-        names = sorted(set(allz) | set(used))
-    else:
-        names = used
+    allz = [e[0] for e in enzymes_in_scope()]
+    if len(allz) < 20:
+        raise AnalysisError("enzyme quantifier shrank to %d (expected 58 with Biopython 1.88)" % len(allz))
+    names = sorted(set(allz) | set(used))
     ctx.report.analysed["enzymes"] = len(names)
     ctx.report.analysed["enzyme_geometries"] = len({enzyme_geometry(Enzyme.get(e))[0].__len__() * 10000 + enzyme_geometry(Enzyme.get(e))[1] * 100 + enzyme_geometry(Enzyme.get(e))[2] for e in names})
     return names
